@@ -222,6 +222,35 @@ def _axioms(ctx, block):
                        lambda i: f"{measure}(param={p}): rho(x + {c}) != rho(x) - {c} on x = {xd[:, js[i]].tolist()}",
                        lambda i: float(vc[js[i]]), lambda i: float(want[js[i]]))
 
+    # ---- the target argument: forward(input, target) == forward(input - target) for every documented
+    # form of the target ("torch.Tensor or float"): python float, python int, 0-dim tensor, full tensor
+    if via == "module" and block.get("shape", "2d") == "2d" and only in (None, "target"):
+        tvals = {"float": 0.375 * scale, "int": 2, "tensor0d": torch.tensor(0.375 * scale, dtype=x.dtype),
+                 "tensor": ((torch.arange(N * M, dtype=torch.float64) * 3) % 7 - 3).reshape(N, M).to(x.dtype) / 4 * scale}
+        for p in params:
+            m = S.module(measure, p)
+            for kind, t in tvals.items():
+                if measure == "iso" or (measure == "eloss" and kind == "int" and scale < 1):
+                    inp = x + t if kind != "tensor" else x + t.abs()       # keep input - target in the domain
+                    t = t if kind != "tensor" else t.abs()
+                else:
+                    inp = x + t
+                with torch.no_grad():
+                    got = m(inp, t).to(torch.float64)
+                    want = m(inp - t).to(torch.float64)
+                ctx.tick(M, nontrivial=M)
+                same = (got == want) | (got.isnan() & want.isnan())
+                js = (~same).nonzero().flatten()
+                if got.shape != want.shape or len(js):
+                    j = int(js[0]) if len(js) else 0
+                    ctx.violation(site, f"target_not_subtracted:{kind}",
+                                  f"{measure}(param={p}): forward(input, target) != forward(input - target) for a "
+                                  f"{kind} target ({t if kind != 'tensor' else 'tensor'}), input - target = {xd[:, j].tolist()}",
+                                  observed=float(got.reshape(-1)[j]), expected=float(want.reshape(-1)[j]),
+                                  block=mini([j], p))
+                    if len(js) > 1:
+                        ctx.viol_counts[(str(site), f"target_not_subtracted:{kind}")] += len(js) - 1
+
     # ---- pairs: monotonicity and convexity ---------------------------------------------
     if M < 2 or only not in (None, "pairs"):
         return
@@ -362,7 +391,7 @@ ISO_A = [0.25, 0.5, 1 - 1e-5, 1 - 1e-6, 1 - 5e-7, 1 - 1e-7, math.nextafter(1.0, 
 TINY = [1, 3, 10, 100, 700]
 # entropic risk aversions: 1e-4, 5e-4, 2e-3 straddle 1e-3 (a * spread reaches 1e2..1e3 at scale 1e6: a small
 # coefficient is NOT a small exponent), then the O(1) values
-PARAMS = {"erm": [1e-4, 5e-4, 2e-3, 0.1, 1.0, 10.0], "es": [0.05, 0.2, 1 / 3, 0.5, 0.75, 0.8, 1.0], "qcvar": [1.0, 2.0, 10.0, 100.0],
+PARAMS = {"erm": [1e-4, 5e-4, 2e-3, 0.1, 1.0, 10.0], "es": [1e-12, 1e-9, 1e-7, 0.05, 0.2, 1 / 3, 0.5, 0.75, 0.8, 1.0], "qcvar": [1.0, 2.0, 10.0, 100.0],
           "eloss": [0.1, 1.0, 10.0], "iso": ISO_A}
 
 MIXED = [1, 2 ** 27, 3 * 2 ** 27]     # numerators/8 at scale 1/4: 1/32, 2^22, 3*2^22 (exact in float32)
